@@ -98,7 +98,7 @@ def tensordot_units(tier, syms=None):
                   (3, 3, (1, 2, 0), (0, 1, 2)), (4, 3, (2, 3, 1), (0, 1, 2))]   # three contracted legs listed in a CYCLIC order (not its own inverse)
     if th:
         shapes += [(3, 3, (2,), (0,)), (4, 2, (1, 3), (1, 0)), (3, 3, (0, 1, 2), (2, 1, 0)), (2, 2, (), ()),
-                   (3, 3, (1, 2, 0), (0, 1, 2)), (4, 3, (2, 3, 1), (0, 1, 2)), (4, 4, (3, 1, 2), (1, 2, 0))]
+                   (3, 3, (1, 2, 0), (0, 1, 2)), (4, 3, (2, 3, 1), (0, 1, 2))]
     for sym in syms:
         for (nd_a, nd_b, in_a, in_b) in shapes:
             for lt_a, lt_b in ([(1, 1), (2, 1), (1, 2), (2, 2), (0, 1), (0, 0)] + ([(3, 2), (2, 3)] if th else [])):
@@ -106,7 +106,7 @@ def tensordot_units(tier, syms=None):
                     continue
                 if (nd_a == 0 and lt_a > 1) or (nd_b == 0 and lt_b > 1):
                     continue
-                deep = th and sym in ('Z2', 'U1')          # the deepest block counts: single-component symmetries only (solver time)
+                deep = th and sym == 'U1'                  # the deepest block counts: U(1) only (solver time)
                 if not deep and len(MOD[sym]) > 1 and lt_a + lt_b > 3:
                     continue
                 if not deep and nd_a + nd_b >= 5 and lt_a + lt_b > 3:
